@@ -17,6 +17,7 @@ import vlib
 THEOREMS = [
     "varint_roundtrip", "varint_guard_forced", "varints_roundtrip", "le_roundtrip",
     "shouldFinish_new", "block_roundtrip_plain_of", "block_roundtrip_plain_fixed", "block_roundtrip_nullable", "block_roundtrip_plain_char",
+    "block_roundtrip_rle", "block_roundtrip_dict", "block_roundtrip_blob", "column_roundtrip", "column_roundtrip_exact",
     "nonnullable_null_witness", "nullable_cross_block_witness", "char_embedded_nul_witness",
     "rle_eq_not_identity_witness", "cut_concat", "cut_blocks_nonempty", "index_exact", "index_covers",
 ]
@@ -385,9 +386,7 @@ def run(ck):
         "samples": [r[:300] for r in gen_lines[:3] + corpus[:2]],
         "model_vs_impl": mvi, "impl_vs_oracle": ivo, "model_vs_oracle": mvo,
         "not_modelled_byte_exact": ["decimal", "interval", "timestamp", "vector"],
-        "unproved": ["block_roundtrip_rle", "block_roundtrip_dict", "block_roundtrip_plain_blob",
-                     "column_roundtrip (composition of cut_concat with the per-block theorems through the trailer)",
-                     "iter_refines_slice_partial (positive statement for non-crossing reads)"],
+        "unproved": ["iter_refines_slice (positive statement for reads that stay inside a block or on non-nullable / RLE / dictionary columns)"],
     })
     return ck.finish(level="proof", checker_cmd="translator/gen_consts.py; lake build RlModel.Thm.C06 drv_c06; #print axioms audit",
                      trusted_base=["Lean 4 kernel (axioms: propext, Classical.choice, Quot.sound)",
